@@ -12,6 +12,7 @@ from ..tables import enum_switches, switch_arms, switch_edges
 from .compiler_common import PX
 
 LEVEL = 'other'
+TECHNIQUE = 'static analysis: dominance (detectors gate routers), provenance of prefixes/domains, tree-shape who-may-write, numbering agreement, quote! template order on the inlined code generator, who-may-construct (AllowedMethods::All), provenance of the handler->fallback map'
 CLAUSE = ('PathRouter::new / DomainRouter::new return Ok only after `?` on every conflict detector; a nested blueprint\'s prefix is '
           'Some(parent ++ own) whenever the parent has one and its domain is own-else-parent; ScopeBasedFallbackTree::new hangs the children '
           'of a scope under the fallback node created for that scope; every numbering of domains / paths in the code generator is a plain '
